@@ -236,10 +236,12 @@ pub fn evaluate_binary_op_normal(a: &Val, op: BinaryOpType, b: &Val) -> Result<V
 			let base = v1.truncate_for_bitwise()?;
 			let exp = v2.truncate_for_bitwise()? % 64;
 
-			if exp >= 1 && base >= (1i64 << (63 - exp as u32)) {
+			// Both for positive and negative bases
+			let shifted = i128::from(base) << exp;
+			if shifted > i128::from(i64::MAX) || shifted < i128::from(i64::MIN) {
 				bail!("left shift would overflow")
 			}
-			Val::try_num(base.wrapping_shl(exp as u32) as f64)?
+			Val::try_num(shifted as i64 as f64)?
 		}
 		(Num(v1), Rhs, Num(v2)) => {
 			if v2.get() < 0.0 {
